@@ -252,23 +252,39 @@ fn run_tokref(data: &[u8], out: &mut RunOut, line: &str) {
     out.push(impl_line, err.map_or(Ok(()), Err));
 }
 
+/// The bytes of a case, placed at a chosen offset (0..=7) from an 8-aligned address: "every byte string" includes
+/// every place in memory it may sit at, and account data handed to a program is a sub-slice of a larger buffer.
+struct Placed { buf: Vec<u64>, off: usize, len: usize }
+impl Placed {
+    fn new(data: &[u8], off: usize) -> Placed {
+        let mut buf = vec![0u64; (data.len() + off) / 8 + 2];
+        let bytes: &mut [u8] = bytemuck::cast_slice_mut(&mut buf[..]);
+        bytes[off..off + data.len()].copy_from_slice(data);
+        Placed { buf, off, len: data.len() }
+    }
+    fn get(&self) -> &[u8] { &bytemuck::cast_slice::<u64, u8>(&self.buf[..])[self.off..self.off + self.len] }
+}
+
 pub fn run(_prop: &str, cases: &[String]) -> RunOut {
     let mut out = RunOut::default();
-    for line in cases {
+    for (k, line) in cases.iter().enumerate() {
         let t: Vec<&str> = line.split_whitespace().collect();
+        // the offset depends on the case text only, so a replayed case sits where it sat
+        let off = if t.len() > 1 { (t[1].len() / 2 + t[1].bytes().map(|b| b as usize).sum::<usize>() + k * 0) % 8 } else { 0 };
         match t[0] {
-            "tok" => run_tok(&unhex(t[1]), &unhex(t[2]), &mut out, line),
-            "tokref" => run_tokref(&unhex(t[1]), &mut out, line),
+            "tok" => { let p = Placed::new(&unhex(t[1]), off); out.stats.bump(&format!("align:{off}")); run_tok(p.get(), &unhex(t[2]), &mut out, line) }
+            "tokref" => { let p = Placed::new(&unhex(t[1]), off); run_tokref(p.get(), &mut out, line) }
             "tokget" => {
                 use spl_generic_token::token::{GenericTokenAccount, GenericTokenMint};
-                let data = unhex(t[1]);
+                let placed = Placed::new(&unhex(t[1]), off);
+                let data: &[u8] = placed.get();
                 fn o<T>(r: Option<Option<T>>, f: impl Fn(T) -> String) -> String { match r { None => "panic".into(), Some(None) => "~".into(), Some(Some(x)) => f(x) } }
                 macro_rules! five { ($A:ty, $M:ty) => { format!("{}:{}:{}:{}:{}",
-                    o(guarded(|| <$A>::unpack_account_mint(&data).copied()), |k| hex(k.as_ref())),
-                    o(guarded(|| <$A>::unpack_account_owner(&data).copied()), |k| hex(k.as_ref())),
-                    o(guarded(|| <$A>::unpack_account_amount(&data)), |n| n.to_string()),
-                    o(guarded(|| <$M>::unpack_mint_supply(&data)), |n| n.to_string()),
-                    o(guarded(|| <$M>::unpack_mint_decimals(&data)), |n| n.to_string())) } }
+                    o(guarded(|| <$A>::unpack_account_mint(data).copied()), |k| hex(k.as_ref())),
+                    o(guarded(|| <$A>::unpack_account_owner(data).copied()), |k| hex(k.as_ref())),
+                    o(guarded(|| <$A>::unpack_account_amount(data)), |n| n.to_string()),
+                    o(guarded(|| <$M>::unpack_mint_supply(data)), |n| n.to_string()),
+                    o(guarded(|| <$M>::unpack_mint_decimals(data)), |n| n.to_string())) } }
                 let s = format!("T={} X={}", five!(spl_generic_token::token::Account, spl_generic_token::token::Mint),
                     five!(spl_generic_token::token_2022::Account, spl_generic_token::token_2022::Mint));
                 let err = if s.contains("panic") { Some("a trait-level checked getter panicked".to_string()) } else { None };
